@@ -3,8 +3,9 @@ CONSTANTS
   MinN = 0
   MaxN = 4
   TypeIds = {1, 2, 3, 4, 5, 6, 7, 8, 9, 10, 11, 12}
+  RunAlgos = {}
   WCross = FALSE
 INIT Init
 NEXT Next
-INVARIANTS TypeOK OptimumExists OptimaAgree NonOptimaWorse OptPcWeaker OptPcSameWithoutCap Admitted BnBIsChangeless AmountIsEffective CGCoversReserve EmitRow
+INVARIANTS TypeOK OptimumExists OptimaAgree NonOptimaWorse OptPcWeaker OptPcSameWithoutCap Admitted BnBIsChangeless AmountIsEffective CGCoversReserve RunEnds AsCodedCG AsCodedBnB AsCodedValid EmitRow
 CHECK_DEADLOCK FALSE
